@@ -229,6 +229,12 @@ pub fn judge(issue: &IssueCase, issued_token: &str, pres: &Presentation, obs: &O
             if !content_matches(issue, opened) {
                 return Judgement::Fail("accepted-different-content".into(), format!("accepted but returned different content: {:?}", abbreviate(opened)));
             }
+            // the tolerated exception is a signature that was RE-ENCODED: the bytes differ, but they still are a
+            // valid signature of the same message under the same key. Any other change of the signature bytes
+            // that is accepted means the signature was not (fully) checked.
+            if auth == Auth::SigOnly && sig_only_tolerated(issued_token, pres) == Some(false) {
+                return Judgement::Fail("accepted-invalid-signature".into(), "only the signature bytes were altered, they are not a valid signature of the message (says the reference), and the token was accepted".into());
+            }
             Judgement::Pass
         }
         Out::Err(e) => {
@@ -263,5 +269,71 @@ fn abbreviate(o: &Opened) -> String {
         format!("{}...", s.chars().take(120).collect::<String>())
     } else {
         s
+    }
+}
+
+static R1_CONSULTATIONS: std::sync::atomic::AtomicUsize = std::sync::atomic::AtomicUsize::new(0);
+/// upper bound on reference consultations per process (each one is a Python process)
+const R1_CONSULTATION_CAP: usize = 400;
+
+/// Is the altered signature of `pres.token` a re-encoding of a valid signature? Some(true): same Ed25519 R and
+/// S' = S + k*L (the same scalar written non-canonically), or the reference R1 verifies the token under the
+/// same key, footer and assertion. Some(false): R1 refuses it. None: not decided (cap reached / R1 unavailable).
+pub fn sig_only_tolerated(issued_token: &str, pres: &Presentation) -> Option<bool> {
+    let seg = |t: &str| t.split('.').nth(2).and_then(b64::decode_strict);
+    let (Some(di), Some(dp)) = (seg(issued_token), seg(&pres.token)) else { return None };
+    if matches!(pres.proto, Proto::V2P | Proto::V4P) && di.len() == dp.len() && di.len() >= 64 {
+        let (ri, si) = (&di[di.len() - 64..di.len() - 32], &di[di.len() - 32..]);
+        let (rp, sp) = (&dp[dp.len() - 64..dp.len() - 32], &dp[dp.len() - 32..]);
+        if ri == rp {
+            // S' == S + k*L for some k >= 1 (little endian, 32 bytes)?
+            let l = b64::unhex("edd3f55c1a631258d69cf7a2def9de1400000000000000000000000000000010").unwrap();
+            let mut acc: Vec<u8> = si.to_vec();
+            for _ in 0..16 {
+                let mut carry = 0u16;
+                let mut next = vec![0u8; 32];
+                for i in 0..32 {
+                    let v = acc[i] as u16 + l[i] as u16 + carry;
+                    next[i] = v as u8;
+                    carry = v >> 8;
+                }
+                if carry != 0 {
+                    break;
+                }
+                acc = next;
+                if acc.as_slice() == sp {
+                    return Some(true);
+                }
+            }
+        }
+    }
+    let n = R1_CONSULTATIONS.fetch_add(1, std::sync::atomic::Ordering::Relaxed);
+    if n >= R1_CONSULTATION_CAP {
+        return None;
+    }
+    let pk = if pres.proto == Proto::V1P {
+        match crate::domains::key_pool(Proto::V1P).into_iter().find(|k| b64::hex(&k.pk) == pres.pk_hex) {
+            Some(k) => k.secret_for_ref,
+            None => return None,
+        }
+    } else {
+        pres.pk_hex.clone()
+    };
+    let dir = crate::report::verif_dir();
+    let tmp = dir.join("target").join("tmp");
+    let _ = std::fs::create_dir_all(&tmp);
+    let (fin, fout) = (tmp.join(format!("vt-{}-{}-in.json", std::process::id(), n)), tmp.join(format!("vt-{}-{}-out.json", std::process::id(), n)));
+    let rec = serde_json::json!([{"proto": pres.proto.name(), "pk": pk, "token": pres.token,
+        "footer": pres.footer.as_ref().map(|f| b64::hex(f.as_bytes())), "assertion": pres.assertion.as_ref().map(|a| b64::hex(a.as_bytes()))}]);
+    if std::fs::write(&fin, rec.to_string()).is_err() {
+        return None;
+    }
+    let st = std::process::Command::new("python3").arg(dir.join("spec/verify_tokens.py")).arg(&fin).arg(&fout).output();
+    let out = std::fs::read_to_string(&fout).ok().and_then(|t| serde_json::from_str::<Value>(&t).ok());
+    let _ = std::fs::remove_file(&fin);
+    let _ = std::fs::remove_file(&fout);
+    match (st, out) {
+        (Ok(o), Some(v)) if o.status.success() => v[0]["valid"].as_bool(),
+        _ => crate::report::machinery_error("spec/verify_tokens.py could not be run (the reference decides whether an altered signature is still valid)"),
     }
 }
